@@ -71,6 +71,11 @@ type Step struct {
 	N        uint64 `json:"n,omitempty"`
 	Key      string `json:"key,omitempty"`
 	Val      string `json:"val,omitempty"`
+	// RenameFrom: before the traced operation the file RenameFrom of the prepared
+	// directory is renamed to Name (a wallet file copied in under a long name)
+	RenameFrom string `json:"rename_from,omitempty"`
+	// AllowFail: the operation may return an error (save refused); the error is an observable
+	AllowFail bool `json:"allow_fail,omitempty"`
 }
 
 type ChildSpec struct {
@@ -156,7 +161,12 @@ func child(specPath string) error {
 			return err
 		}
 		if err := walletStep(s, sp.Step); err != nil {
-			return err
+			if !sp.Step.AllowFail {
+				return err
+			}
+			if werr := ioutil.WriteFile(filepath.Join(sp.MarkDir, "op_error"), []byte(err.Error()), 0600); werr != nil {
+				return werr
+			}
 		}
 		return mark(sp.MarkDir, "MARK_END")
 	case "kv":
@@ -650,6 +660,8 @@ type Scen struct {
 	ObsOld Obs
 	ObsNew Obs
 	Step   Step
+	// OpError: the traced operation returned this error (only for scenarios that allow it)
+	OpError string
 }
 
 type gen struct {
@@ -752,6 +764,11 @@ func (g *gen) build(id int, kind, desc string, extra Dir, setup []Step, last Ste
 	if err := writeDir(prep, extra); err != nil {
 		return nil, err
 	}
+	if last.RenameFrom != "" {
+		if err := os.Rename(filepath.Join(prep, last.RenameFrom), filepath.Join(prep, last.Name)); err != nil {
+			return nil, err
+		}
+	}
 	old, err := readDir(prep)
 	if err != nil {
 		return nil, err
@@ -794,12 +811,19 @@ func (g *gen) build(id int, kind, desc string, extra Dir, setup []Step, last Ste
 	if err != nil {
 		return nil, err
 	}
+	opError := ""
+	if b, err := ioutil.ReadFile(filepath.Join(mdir, "op_error")); err == nil {
+		opError = string(b)
+	}
+	if opError != "" && len(target)+13 <= 255 {
+		return nil, &opFailed{opError} // only a name too long for its tmp file may make the save fail
+	}
 	nw, ok := final[target]
 	if !ok {
 		return nil, fmt.Errorf("scenario %s: target %s missing after the operation", desc, target)
 	}
 	sc := &Scen{ID: id, Kind: kind, Desc: desc, W: w, Name: target, Old: old, New: nw, Final: final, Traced: traced,
-		Valid: map[string]int{}, Step: last, Hash: cipher.SumSHA256(nw).Hex()[:8]}
+		Valid: map[string]int{}, Step: last, Hash: cipher.SumSHA256(nw).Hex()[:8], OpError: opError}
 	if kind == "kv" {
 		sc.Typ = strings.TrimSuffix(target, ".json")
 	}
@@ -879,6 +903,24 @@ func (g *gen) scenarios(tier string) ([]*Scen, error) {
 		}
 		for _, x := range ws {
 			if err := add("wallet", x.desc, x.extra, x.setup, x.last, x.target, x.isw); err != nil {
+				return nil, err
+			}
+		}
+		// the longest legal file names: up to 242 bytes the tmp file "<name>.tmp.<8 hex>" still fits
+		// NAME_MAX = 255 and the save is the usual one; from 243 on the tmp file cannot be created
+		// and the save must be refused with nothing written
+		for _, ln := range []struct {
+			l   int
+			op  string
+			isw bool
+		}{{240, "label", false}, {242, "newaddr", true}, {243, "label", false}, {243, "newaddr", true}, {250, "encrypt", false}, {255, "label", false}} {
+			long := strings.Repeat("n", ln.l-4) + ".wlt"
+			st := Step{Op: ln.op, Name: long, Label: lab + g.word(6), N: 2, RenameFrom: "a.wlt", AllowFail: true}
+			if ln.op == "encrypt" {
+				st.Password = "pw" + g.word(3)
+			}
+			desc := fmt.Sprintf("wallet %s on a file name of %d bytes", ln.op, ln.l)
+			if err := add("wallet", desc, nil, []Step{mkA, mkB}, st, long, ln.isw); err != nil {
 				return nil, err
 			}
 		}
@@ -1078,6 +1120,15 @@ func run(args []string) error {
 		}
 		var lrs []lres
 		for _, x := range lcs {
+			tooLong := false
+			for n := range x.d {
+				if len(n) > 255 {
+					tooLong = true
+				}
+			}
+			if tooLong {
+				continue
+			}
 			for n, c := range x.d {
 				if sc.Kind == "kv" && n != sc.Name {
 					continue
@@ -1185,7 +1236,7 @@ func run(args []string) error {
 		cases["scen"] = append(cases["scen"], map[string]interface{}{
 			"scenario": sc.ID, "kind": sc.Kind, "what": sc.Desc, "op": sc.Step.Op, "target": sc.Name,
 			"previous_file": hadOld, "old_len": len(sc.Old[sc.Name]), "new_len": len(sc.New),
-			"traced_ops": opsText(sc.Traced), "obs_old": sc.ObsOld.String(), "obs_new": sc.ObsNew.String()})
+			"traced_ops": opsText(sc.Traced), "obs_old": sc.ObsOld.String(), "obs_new": sc.ObsNew.String(), "op_error": sc.OpError})
 		o.Count(fmt.Sprintf("scen %s %s", sc.Kind, opsText(sc.Traced)), true)
 		hist.Add("scenario:" + sc.Kind + ":" + sc.Step.Op)
 
